@@ -1313,6 +1313,11 @@ func (sa *Application) tryPlaceholderAllocate(nodeIterator func() NodeIterator, 
 	// we checked all placeholders and asks nothing worked as yet
 	// pick the first fit and try all nodes if that fails give up
 	var allocResult *AllocationResult
+	// the first fit placeholder could have been cancelled while checking a later (larger) request: do not reuse it
+	if phFit != nil && phFit.IsReleased() {
+		phFit = nil
+		reqFit = nil
+	}
 	if phFit != nil && reqFit != nil {
 		resKey := reqFit.GetAllocationKey()
 		iterator.ForEachNode(func(node *Node) bool {
